@@ -426,6 +426,10 @@ def run_shard(spec_, res):
     # the labelled aliases of a MetaModule's exposed controllers are assignment paths to controllers as well
     from .. import aliasprobe
     aliasprobe.run(res, PROPERTY, random.Random(spec_["seed"] + 5), 40 if spec_["tier"] == "quick" else 400, domain=True)
+    # several threads without any load among them (fan-out, MetaModule mirroring, construction, saving): out-of-range
+    # assignments made by a thread on its own modules are refused as they are when it runs alone (rvmon.sched)
+    from .. import threadtasks
+    threadtasks.run_quiet(res, PROPERTY, random.Random(spec_["seed"] + 6), 10 if spec_["tier"] == "quick" else 100)
     res.exhaustive = True
 
 
